@@ -75,3 +75,10 @@ check(
     "One-dimensional containers and int dimensions; conversion reference is the database's own float conversion with the running error scale; an out-of-range index may raise any exception.",
     "4/C11",
 )
+check(
+    "C12",
+    "runtime monitoring: reference-verdict monitor on a private database with one category per limit configuration - IsValid/CheckValidity/CheckValueForCategory/validator messages of real Scalars, FractionScalars and Arrays (all permutations x container kinds, repeated calls) compared with the limits applied to the database's own float conversion; invariant checks after every accepted random AddCategory",
+    "Held for 7 (type, default unit) x 8 limit pairs x exclusivity flags (incl. one affine type and one custom decreasing unit) x every listed unit x hostile amounts (exact boundaries, +-1 ulp, +-inf, NaN): verdict, repeatability, CheckValidity agreement, rejection report fields, equality of Array verdict with the conjunction of the element Scalars for every permutation and container; thousands of random AddCategory keyword tuples: accepted ones have a default unit inside type and valid units, default value inside own limits, valid default objects.",
+    "Reference conversion is UnitDatabase.Convert (C01/C02); amounts within float noise of a limit but not equal to it may get either verdict (consistently); NaN limits/defaults are outside the quantifier.",
+    "4/C12",
+)
